@@ -3,7 +3,7 @@
 Stateless model checking of real threads under a controlled scheduler (mc/explore/sched.py):
 2-3 threads each encode a pool document (different palettes/shapes); ALL schedules with at most p
 preemptions at every library call boundary are executed (p = 0, 1 always; 2 on the smallest
-documents in the thorough tier).  Oracle: every thread returns exactly its solo result.
+document in the thorough tier, inside the start-up window and over the epoch grid).  Oracle: every thread returns exactly its solo result.
 """
 from __future__ import annotations
 
@@ -21,7 +21,7 @@ LEVEL = "model_checking"
 TECHNIQUE = ("stateless model checking of real threads under a cooperative baton scheduler (sys.settrace call events in library code): "
              "exhaustive enumeration of all schedules with <= p preemptions (iterative context bounding) at every library function entry and at every line of state-changing functions, each thread's result compared with its solo result")
 LEVEL_TEXT = ("Every schedule of 2 (and 3) encoding threads with at most one preemption at any library function-call boundary is executed on the real code; "
-              "two preemptions exhaustively on the smallest documents in the thorough tier. Only specific preemption windows corrupt a result, so the schedule "
+              "two preemptions exhaustively on the smallest document in the thorough tier, and for every pair inside the start-up window and over the epoch grid (non-nested order). Only specific preemption windows corrupt a result, so the schedule "
               "space has to be enumerated rather than stressed.")
 LEVEL_NOTE = ("Preemption points are function-call boundaries inside rtflite (the property's own quantifier); the real interpreter can switch at any bytecode. "
               "Trusted: baton scheduler (zero-preemption schedule must reproduce solo outputs; failing schedules replayed twice), census restore between schedules.")
@@ -182,8 +182,8 @@ def plan(run):
     quick = run.tier == "quick"
     run.rule = ("threads encode pool documents (red 4x2 with title; blue/green paginated with footnote; coloured multi-section; figure with coloured title; plain; grouped; two page_by documents with different data); "
                 "for every ordered pair (quick: 3 seed-rotated ordered pairs + one document with itself + one triple; thorough: all 30 pairs, 4 self-pairs, 6 triples) every schedule with 0 or 1 preemption at every library call boundary; 3 threads "
-                "with <= 1 preemption; every schedule with 2 preemptions inside the first W call boundaries of both threads (W=60 quick for one seed-rotated pair, 250 thorough for all pairs); every NON-nested 2-preemption schedule (A paused at p, B runs to q, A runs to its end, B continues) with p, q in {first, last and the two points after the first of every epoch of constant process-global state of the solo encode} "
-                "plus an even grid of G points (G=16 quick, 48 thorough); thorough: 2 preemptions exhaustively on the two smallest documents. states = schedules executed; transitions = preemptions executed; non-trivial = distinct schedules in which a preemption was actually executed")
+                "with <= 1 preemption; every schedule with 2 preemptions inside the first W call boundaries of both threads (W=60 quick for one seed-rotated pair, 80 thorough for the 12 ordered pairs of the four coloured documents); every NON-nested 2-preemption schedule (A paused at p, B runs to q, A runs to its end, B continues) with p, q in {first, last and the two points after the first of every epoch of constant process-global state of the solo encode} "
+                "plus an even grid of G points (G=16 quick, 32 thorough); thorough: 2 preemptions exhaustively on the smallest document encoded by two threads. states = schedules executed; transitions = preemptions executed; non-trivial = distinct schedules in which a preemption was actually executed")
     run.assumptions = ["scheduling points are entries of functions whose code file is under <repo>/src/rtflite/, plus every line of the library "
                        "functions that a discovery pass observed to change process-global state (census / name bindings) while encoding",
                        "between schedules the process-global state is restored by the generic census snapshot (asserted)"]
@@ -244,7 +244,7 @@ def plan(run):
     run.layer("3-threads-1-preemption", "mc.props.c15:eval_case", cases, chunk=1, total=len(cases), on_result=on_res)
     # two preemptions inside the start-up window of both threads (where process-wide registries, contexts and
     # caches are initialised): thread 0 preempted at p <= W, thread 1 preempted at q <= W, back to thread 0
-    W = 60 if quick else 250
+    W = 60 if quick else 80
     wpairs = [[("red", "paged"), ("paged", "red"), ("multi", "red")][run.seed % 3]] if quick else list(itertools.permutations(DOCS[:4], 2))
     for a, b in dict.fromkeys(wpairs):
         cases = [{"mode": "two", "docs": [a, b], "start": 0, "thread": 0, "other": 1, "lo": lo, "hi": min(W + 1, lo + 3), "n_other": counts.get(b, 0),
@@ -260,7 +260,7 @@ def plan(run):
             epochs[r["_case"]["docs"][0]] = (r["epoch_firsts"], r["npoints"])
 
     run.layer("epochs-of-constant-global-state", "mc.props.c15:eval_case", [{"mode": "epochs", "docs": [d], "line_funcs": LF} for d in DOCS], chunk=1, on_result=on_ep)
-    G = 16 if quick else 48
+    G = 16 if quick else 32
 
     def point_set(d):
         firsts, n = epochs.get(d, ([1], counts.get(d, 1)))
@@ -270,7 +270,7 @@ def plan(run):
         return sorted({x for x in firsts + lasts + near + grid if 1 <= x <= n})
 
     run.extra["epochs_per_encode"] = {d: len(v[0]) for d, v in epochs.items()}
-    gpairs = list(dict.fromkeys(list(pairs) + [(a, a) for a in same])) if quick else list(itertools.permutations(DOCS, 2)) + [(a, a) for a in same]
+    gpairs = list(dict.fromkeys(list(pairs) + [(a, a) for a in same])) if quick else list(itertools.permutations(DOCS[:4], 2)) + [("pbA", "pbB"), ("pbB", "pbA")] + [(a, a) for a in same]
     cases = []
     for a, b in gpairs:
         pq = [(p_, q_) for p_ in point_set(a) for q_ in point_set(b)]
@@ -278,8 +278,9 @@ def plan(run):
             cases.append({"mode": "grid", "docs": [a, b], "start": 0, "pq": pq[i:i + 30], "line_funcs": LF})
     run.layer("2-threads-2-preemptions-non-nested-epoch-grid", "mc.props.c15:eval_case", cases, chunk=1, total=len(cases), on_result=on_res)
     if not quick:
-        small = sorted(counts, key=counts.get)[:2]
-        for a, b in itertools.permutations(small, 2):
+        # (sized to the budget: |A| x |B| schedules; the first thorough run showed that two different documents are out of reach)
+        small = sorted(counts, key=counts.get)[:1]
+        for a, b in [(small[0], small[0])]:
             na, nb = counts[a], counts[b]
             cases = [{"mode": "two", "docs": [a, b], "start": 0, "thread": 0, "other": 1, "lo": lo, "hi": min(na + 1, lo + 4), "n_other": nb, "line_funcs": LF}
                      for lo in range(1, na + 1, 4)]
